@@ -28,7 +28,7 @@ def check(ctx):
     envs = [None] if ctx.quick else [None, "SONIC_USE_OPTDEC=1", "SONIC_ENCODER_USE_VM=1"]
     sums = []
     for i, env in enumerate(envs):
-        args = ["session", "-dump", g["dump"], "-out", sfile, "-seed", ctx.seed, "-stride", ctx.pick(4, 5 if i == 0 else 40)]
+        args = ["session", "-dump", g["dump"], "-out", sfile, "-seed", ctx.seed, "-stride", ctx.pick(11, 5 if i == 0 else 40)]
         if env:
             args += ["-env", env]
         vf.vh(ctx, args, timeout=3000)
